@@ -153,6 +153,14 @@ func genC18(g *G) {
 			addFile("{namespace a}\n{template .t}\n"+strings.Replace(wrap, "%s", blank, 1)+"\n{/template}\n{template .u}\nx\n{/template}\n", "quoted-expr-blank")
 		}
 	}
+	// NUL bytes (a UTF-16 file, a stray NUL in text, in a tag, in a string): whatever is said about them, every scanner ends
+	for _, src := range []string{"\xff\xfe{\x00n\x00a\x00m\x00e\x00s\x00p\x00a\x00c\x00e\x00", "{namespace a}\n{template .t}\nhel\x00lo\n{/template}\n", "{namespace a}\n{template .t}\n{$x\x00}\n{/template}\n",
+		"{namespace a}\n{template .t}\n{'a\x00b'}\n{/template}\n", "\x00", "\x00{namespace a}", "{namespace a}\n\x00\n{template .t}\nx\n{/template}\n", "{namespace a}\n/** \x00 */\n{template .t}\nx\n{/template}\n", "{namespace a}\n{template .t}\nx\n{/template}\n\x00"} {
+		addFile(src, "nul-bytes")
+	}
+	for _, e := range []string{"\x00", "1 + \x00", "'a\x00'", "$a\x00b"} {
+		addExpr(e, "nul-bytes")
+	}
 	// soydoc params in every degenerate shape (a lexer error inside a helper that cannot stop the state machine)
 	for _, p := range []string{"@param", "@param ", "@param  ", "@param?", "@param? ", "@param?  ", "@param\t", "@param x", "@param? x y", "@param 1x", "@param $x", "@param x\n * @param", "@param ?", "@param?x", "@paramx", "@param x @param y", "@param\r", "@param é"} {
 		for _, shape := range []string{"/** %s */", "/**\n * %s\n */", "/** %s\n*/", "/**%s*/", "/** %s", "/**\n * %s \n * more\n */"} {
